@@ -1,7 +1,6 @@
 """One function per generated Lean file; each yields (filename, text)."""
-from gen_tables import lean_nat_list, lean_str, chunked_def
+from gen_tables import lean_nat_list, lean_str, chunked_def, HEADER
 
-HEADER = "-- GENERATED by translate/gen_tables.py from the live bs4 of /repo; do not edit\n"
 
 
 def gen_registry():
